@@ -12,6 +12,9 @@ CHECKS = {
  "C18": dict(cat="model_checking", tech="TLA+ TokenPool specification model-checked exhaustively (TLC, SlabSize 2, histories <= 10/12) with defect flags; TLC-generated well-bracketed histories replayed on token.c/object_pool.c under ASan with link-time interposition of pool_allocate_object; trace validated by TLC (TokenPoolTrace.tla, SlabSize 1024)",
              text="All histories of the pool protocol up to 10 (12) actions are model-checked for NoDangling, ReleasedAtOutermostDrain, CleanStart, CleanAfterFree, CounterAgrees. Every BFS history of 6 (7) actions and simulated 24-action histories, with documents sized by dry run to land on the 1024-object slab boundary and to span up to 18 slabs, are executed on the real pool; after every call the pool's slab count and next pointer, allocation counts, tree walks of held trees and result digests must be what the model predicts.",
              note="Environment discipline (well-bracketed) is part of the spec; harness plays main.c's role. Trusted: --wrap interposition, ASan.", ref="5/C18"),
+ "C06": dict(cat="model_checking", tech="TLA+ Session specification (no entry-point family in the key) + TLC trace validation (SessionTrace.tla) of recorded conversions through 9 API families and 4 CLI modes; packaged outputs projected member-wise",
+             text="Every case (document x format x extension set) is executed through the C-string, DString and engine variants of convert / convert_to_data / convert_to_file in the ASan harness and through the sanitized command line tool (stdin, file argument, -o, -b). SessionTrace accepts the trace only if every family returns/writes a result and all families that the property relates produce the same digest as the first one; metadata has/keys/value triplets are validated the same way.",
+             note="Design-level part is the model-checked Session spec; the code-level part is bounded by the document pool (hand-picked + corpus sample) x 10 formats x 3-6 extension sets. Packages compared member-wise with uuids/timestamps masked (python zipfile).", ref="5/C06"),
 }
 NOT_APPLICABLE = {}
 def main():
